@@ -10,17 +10,20 @@ use std::pin::Pin;
 use std::task::{Context, Poll};
 
 pub mod simfs {
+    //! Process-global in-memory file table. File contents live in small heap vectors whose
+    //! capacity the harness chooses (CBMC only constant-propagates small arrays; a big static
+    //! backing store makes every access two-way). The logical length may exceed the stored
+    //! capacity (set_len(1 MB)): bytes beyond it read as zero and must never be written.
     pub const MAX_FILES: usize = 3;
-    pub const MAX_HANDLES: usize = 12;
-    pub const CAP: usize = 6144;
+    pub const MAX_HANDLES: usize = 16;
 
     pub struct Slot {
         pub used: bool,
         pub name: [u8; 8],
         pub name_len: usize,
-        /// logical length (may exceed CAP: bytes beyond `hw` read as zero)
+        /// logical length
         pub len: u64,
-        pub data: [u8; CAP],
+        pub data: Vec<u8>,
     }
     pub struct Handle {
         pub used: bool,
@@ -28,47 +31,48 @@ pub mod simfs {
         pub pos: usize,
     }
     pub struct Fs {
-        pub slots: [Slot; MAX_FILES],
-        pub handles: [Handle; MAX_HANDLES],
-        pub pos: [u64; MAX_HANDLES],
-        pub next_handle: usize,
-        pub next_pos: usize,
+        pub cap: usize,
+        pub slots: Vec<Slot>,
+        pub handles: Vec<Handle>,
+        pub pos: Vec<u64>,
         /// number of mutating calls (write / set_len) performed so far
         pub mutations: u64,
         /// mutating calls beyond this count are dropped (crash point); u64::MAX = never
         pub crash_after: u64,
     }
-    const EMPTY_SLOT: Slot = Slot {
-        used: false,
-        name: [0; 8],
-        name_len: 0,
-        len: 0,
-        data: [0; CAP],
-    };
-    const EMPTY_HANDLE: Handle = Handle {
-        used: false,
-        slot: 0,
-        pos: 0,
-    };
-    pub static mut FS: Fs = Fs {
-        slots: [EMPTY_SLOT; MAX_FILES],
-        handles: [EMPTY_HANDLE; MAX_HANDLES],
-        pos: [0; MAX_HANDLES],
-        next_handle: 0,
-        next_pos: 0,
-        mutations: 0,
-        crash_after: u64::MAX,
-    };
+    pub static mut FS: Option<Fs> = None;
 
     #[allow(static_mut_refs)]
     pub fn fs() -> &'static mut Fs {
-        unsafe { &mut FS }
+        unsafe {
+            if FS.is_none() {
+                FS = Some(Fs {
+                    cap: 64,
+                    slots: Vec::new(),
+                    handles: Vec::new(),
+                    pos: Vec::new(),
+                    mutations: 0,
+                    crash_after: u64::MAX,
+                });
+            }
+            FS.as_mut().unwrap()
+        }
+    }
+
+    /// forget everything and choose the per-file stored capacity
+    #[allow(static_mut_refs)]
+    pub fn reset(cap: usize) {
+        unsafe {
+            let old = FS.take();
+            std::mem::forget(old);
+        }
+        fs().cap = cap;
     }
 
     pub fn find(path: &[u8]) -> Option<usize> {
         let fs = fs();
         let mut i = 0;
-        while i < MAX_FILES {
+        while i < fs.slots.len() {
             let s = &fs.slots[i];
             if s.used && s.name_len == path.len() {
                 let mut eq = true;
@@ -91,22 +95,22 @@ pub mod simfs {
     pub fn create(path: &[u8]) -> usize {
         assert!(path.len() <= 8, "simfs: path too long");
         let fs = fs();
-        let mut i = 0;
-        while i < MAX_FILES {
-            if !fs.slots[i].used {
-                fs.slots[i].used = true;
-                fs.slots[i].name_len = path.len();
-                let mut j = 0;
-                while j < path.len() {
-                    fs.slots[i].name[j] = path[j];
-                    j += 1;
-                }
-                fs.slots[i].len = 0;
-                return i;
-            }
-            i += 1;
+        assert!(fs.slots.len() < MAX_FILES, "simfs: too many files");
+        let mut name = [0u8; 8];
+        let mut j = 0;
+        while j < path.len() {
+            name[j] = path[j];
+            j += 1;
         }
-        panic!("simfs: too many files");
+        let cap = fs.cap;
+        fs.slots.push(Slot {
+            used: true,
+            name,
+            name_len: path.len(),
+            len: 0,
+            data: vec![0u8; cap],
+        });
+        fs.slots.len() - 1
     }
 
     pub fn file_len(path: &str) -> Option<u64> {
@@ -114,8 +118,9 @@ pub mod simfs {
     }
     pub fn byte_at(path: &str, off: usize) -> u8 {
         let i = find(path.as_bytes()).unwrap();
-        if off < CAP {
-            fs().slots[i].data[off]
+        let s = &fs().slots[i];
+        if off < s.data.len() {
+            s.data[off]
         } else {
             0
         }
@@ -125,8 +130,8 @@ pub mod simfs {
             Some(i) => i,
             None => create(path.as_bytes()),
         };
-        assert!(off < CAP);
         let s = &mut fs().slots[i];
+        assert!(off < s.data.len(), "simfs: set_byte beyond CAP");
         s.data[off] = v;
         if s.len < off as u64 + 1 {
             s.len = off as u64 + 1;
@@ -138,6 +143,11 @@ pub mod simfs {
             None => create(path.as_bytes()),
         };
         fs().slots[i].len = len;
+    }
+    pub fn remove(path: &str) {
+        if let Some(i) = find(path.as_bytes()) {
+            fs().slots[i].used = false;
+        }
     }
     pub fn set_crash_after(n: u64) {
         fs().crash_after = n;
@@ -181,23 +191,20 @@ pub(crate) struct SimFlags {
 
 fn new_handle(slot: usize, shared_pos: Option<usize>) -> File {
     let fs = fs();
-    let hid = fs.next_handle;
+    let hid = fs.handles.len();
     assert!(hid < MAX_HANDLES, "simfs: too many handles");
-    fs.next_handle += 1;
     let pos = match shared_pos {
         Some(p) => p,
         None => {
-            let p = fs.next_pos;
-            fs.next_pos += 1;
-            fs.pos[p] = 0;
-            p
+            fs.pos.push(0);
+            fs.pos.len() - 1
         }
     };
-    fs.handles[hid] = Handle {
+    fs.handles.push(Handle {
         used: true,
         slot,
         pos,
-    };
+    });
     File { hid }
 }
 
@@ -209,12 +216,10 @@ pub(crate) fn sim_open(path: &Path, flags: SimFlags) -> io::Result<File> {
                 return Err(io::Error::from(io::ErrorKind::AlreadyExists));
             }
             if flags.truncate {
+                let cap = fs().cap;
                 fs().slots[i].len = 0;
-                let mut k = 0;
-                while k < CAP {
-                    fs().slots[i].data[k] = 0;
-                    k += 1;
-                }
+                let old = std::mem::replace(&mut fs().slots[i].data, vec![0u8; cap]);
+                std::mem::forget(old);
             }
             i
         }
@@ -282,10 +287,11 @@ impl File {
         let s = &mut fs.slots[slot];
         if size < s.len {
             // zero the cut-off tail that is stored
-            let mut k = size as usize;
-            while k < CAP && (k as u64) < s.len {
-                s.data[k] = 0;
-                k += 1;
+            let cap = s.data.len();
+            let from = if (size as usize) < cap { size as usize } else { cap };
+            let to = if (s.len as usize) < cap { s.len as usize } else { cap };
+            if from < to {
+                s.data[from..to].fill(0);
             }
         }
         s.len = size;
@@ -335,11 +341,15 @@ impl AsyncRead for File {
         let want = dst.remaining() as u64;
         let n = if want < avail { want } else { avail } as usize;
         let out = dst.initialize_unfilled_to(n);
-        let mut k = 0;
-        while k < n {
-            let off = pos as usize + k;
-            out[k] = if off < CAP { s.data[off] } else { 0 };
-            k += 1;
+        let cap = s.data.len();
+        let p = pos as usize;
+        // stored part by slice copy (no per-byte loop for the solver to unwind), rest reads as zero
+        let stored = if p >= cap { 0 } else if p + n <= cap { n } else { cap - p };
+        if stored > 0 {
+            out[..stored].copy_from_slice(&s.data[p..p + stored]);
+        }
+        if stored < n {
+            out[stored..n].fill(0);
         }
         dst.advance(n);
         fs.pos[h.pos] = pos + n as u64;
@@ -385,12 +395,9 @@ impl AsyncWrite for File {
             return Poll::Ready(Ok(n));
         }
         let s = &mut fs.slots[slot];
-        assert!(pos as usize + n <= CAP, "simfs: write beyond CAP");
-        let mut k = 0;
-        while k < n {
-            s.data[pos as usize + k] = src[k];
-            k += 1;
-        }
+        assert!(pos as usize + n <= s.data.len(), "simfs: write beyond CAP");
+        let p = pos as usize;
+        s.data[p..p + n].copy_from_slice(src);
         if s.len < pos + n as u64 {
             s.len = pos + n as u64;
         }
